@@ -10,8 +10,8 @@ BASE_NOTE = ("TLC 1.8 (tla2tools.jar) and /venv/bin/python with the repository's
 CHECKS = {
     "C01": dict(
         engine="engine",
-        technique="TLC model checking of MPRun.tla (all DAGs, all call histories) + replay of every terminal state on the real engine + TLC trace validation against MPRunAbsTrace.tla",
-        text="TLC exhaustively explores the implementation-shaped engine spec MPRun for every acyclic program on 3 commands (every edge direct or listed; optionally one failing command, one reference the consumer never reads, one command returning None, or one command added with add_command after the first call; histories of 3 API calls) and on 4 commands (1 call; thorough: 2 calls + liveness), checking ExactlyOnce, NoReexec, RunCompletes, Quiescent, TermCorrect, FinishedStays; terminal states are replayed on the real Program/Command with probe commands and compared (outcome, execution counts, Herbrand values), every recorded event trace is validated by TLC against the abstract engine spec, whose clauses are the property's promises, and so is every successful Program.run() performed by the repository's own tests.",
+        technique="TLC model checking of MPRun.tla (all DAGs, all call histories) + replay of every terminal state on the real engine + TLC trace validation against MPRunAbsTrace.tla; TLAPS proof (MPRunAbsProof.tla) of the abstract engine for any number of commands",
+        text="TLC exhaustively explores the implementation-shaped engine spec MPRun for every acyclic program on 3 commands (every edge direct or listed; optionally one failing command, one reference the consumer never reads, one command returning None, or one command added with add_command after the first call; histories of 3 API calls) and on 4 commands (1 call; thorough: 2 calls + liveness), checking ExactlyOnce, NoReexec, RunCompletes, Quiescent, TermCorrect, FinishedStays; terminal states are replayed on the real Program/Command with probe commands and compared (outcome, execution counts, Herbrand values), every recorded event trace is validated by TLC against the abstract engine spec, whose clauses are the property's promises, and so is every successful Program.run() performed by the repository's own tests. Every fifth replay assembles the program through the API (add_command with Command objects). TLC checks that MPRun refines the abstract engine MPRunAbs, whose safety (finished dependencies, value = term of current values, finished forever) tlapm proves for an arbitrary set of commands at every run.",
         design="4/C01, 2.1",
         note=BASE_NOTE + " Probe commands stand for arbitrary commands (the engine never looks inside execute).",
     ),
@@ -52,10 +52,10 @@ CHECKS.update({
                 text="TLC enumerates every (parameter configuration x raw value kind x environment) cell of the cleaning table (about 30 000 cells) and checks the laws on the table; every cell is executed on the real classes with 2-3 concrete representatives (clean, clean again, clean of the cleaned value, deep comparison of raw argument and program, execution counter) and TLC validates each observation against the table: Type, Value, ErrorClass, ForeignException, NotRepeatable, NotIdempotent, Mutated.",
                 design="4/C20, 2.4", note=BASE_NOTE + " Cells the documentation leaves open are 'unspecified': any documented type or parameter error is accepted there, never another exception."),
     "C12": dict(engine="validate", technique="TLC: MPValidate.tla pipeline (load / pre-pass / execute) over declarations generated from the live classes, invariants AcceptIffWellFormed, ErrorIsAFault, RejectBeforeEffects; replay of every program + TLC trace validation (MPValidateTrace.tla) against the declarative Faults(prog)",
-                text="Declarations are exported from the live command classes; TLC builds a valid model around every declared command, injects every single fault at two positions (about 4 900 programs for the CSV libraries; thorough adds NetCDF), explores the pipeline step by step and checks acceptance iff well-formed, the reported error being one of the program's faults, and rejection before any execution or file; every program is rendered, run with the execute tracer and a directory snapshot, compared with the model's terminal state, and its trace validated by TLC.",
+                text="Declarations are exported from the live command classes; TLC builds a valid model around every declared command, injects every single fault at two positions (about 4 900 programs for the CSV libraries; thorough adds NetCDF), explores the pipeline step by step and checks acceptance iff well-formed, the reported error being one of the program's faults, and rejection before any execution or file; every program is rendered, run with the execute tracer and a directory snapshot, compared with the model's terminal state, and its trace validated by TLC (incl. the exact set a MissingParameters error names and the arguments execute() receives, extra ones for allow_extra_inputs commands). MPDeclDocs compares the live declarations with those parsed from docs/user/*.rst (required/optional, kind).",
                 design="4/C12, 2.3", note=BASE_NOTE + " Well-formedness is relative to the live declarations. Execute-time semantic errors are not ill-formedness."),
     "C13": dict(engine="validate", technique="TLC: EscapeTyped on MPValidate over the full kind-confusion matrix + TLC validation of the recorded outcome classes; MPCli.tla (incl. liveness) + MPCliTrace.tla validation of command-line runs",
-                text="Every declared command x parameter x every raw value kind is built by MPValidate(AllKinds) and run through from_source+run; TLC validates the class of whatever escapes. Run-time scenarios for each library error class and CSV content faults, plus a sample of the matrix, are also run through the command-line tool and validated against MPCliTrace (non-zero exit, banner and problem/solution text on stderr, no traceback).",
+                text="Every declared command x parameter x every raw value kind is built by MPValidate(AllKinds) and run through from_source+run; TLC validates the class of whatever escapes. A text fuzz (character edits and replacement of argument values by values of other kinds / extreme literals) checks that parse and load end in success, SyntaxError or an MPilot error. Run-time scenarios for each library error class and CSV content faults, plus a sample of the matrix, are also run through the command-line tool and validated against MPCliTrace (non-zero exit, banner and problem/solution text on stderr, no traceback).",
                 design="4/C13, 2.3, 2.9", note=BASE_NOTE + " The CLI is invoked in-process through its click entry point."),
 })
 
